@@ -1010,6 +1010,6 @@ def run(program, rep, tier):
     # get(T) visits each type once (C06's rule for the walk of get)
     from rules import c06
     rep.borrow(c06.run, program, rep, 'quick',
-               keep=lambda o: o.rule in ('C06.once', 'C06.cover'),
+               keep=lambda o: o.rule == 'C06.once',
                rename=lambda r: 'C01.' + r.split('.')[1],
                why='get(T) lists a pair twice')
